@@ -559,6 +559,7 @@ ENTITY_GETTERS = {
     'entities.by_handle(metric).update()': lambda p: _flat(_refreshed(p, A.NUM1, 'metric(N1,2)')),
     'entities.by_handle(patient).update()': lambda p: _flat(_refreshed(p, A.PAT, 'patient-update-first(X)')),
     'entities.by_handle(alert-condition).update()': lambda p: _flat(_refreshed(p, A.AC, 'alert-cond(on)')),
+    'entities.by_handle(patient).update()+new-state': lambda p: _flat(_refreshed(p, A.PAT, 'patient-new(B)')),
 }
 
 
